@@ -16,6 +16,7 @@ import (
 	"github.com/mholt/archiver"
 
 	"github.com/cube2222/octosql/config"
+	"github.com/cube2222/octosql/helpers/simhook"
 	"github.com/cube2222/octosql/plugins/repository"
 )
 
@@ -186,13 +187,16 @@ func (m *PluginManager) Install(ctx context.Context, name string, constraint *se
 
 	newPluginDir := filepath.Join(getPluginDir(), repoSlug, fmt.Sprintf("octosql-plugin-%s", name), version.Number.String())
 
+	simhook.CrashPoint("install.begin")
 	if err := os.RemoveAll(newPluginDir); err != nil {
 		return fmt.Errorf("couldn't remove old plugin directory: %w", err)
 	}
+	simhook.CrashPoint("install.after_removeall")
 
 	if err := os.MkdirAll(newPluginDir, os.ModePerm); err != nil {
 		return fmt.Errorf("couldn't create plugins directory: %w", err)
 	}
+	simhook.CrashPoint("install.after_mkdir")
 	archiveFilePath := filepath.Join(newPluginDir, "archive.tar.gz")
 
 	// Anonymous function to take care of defers before we move forward.
@@ -213,6 +217,7 @@ func (m *PluginManager) Install(ctx context.Context, name string, constraint *se
 			return fmt.Errorf("couldn't create plugin archive file: %w", err)
 		}
 		defer f.Close()
+		simhook.CrashPoint("install.after_create_archive")
 
 		if _, err := io.Copy(f, res.Body); err != nil {
 			return fmt.Errorf("couldn't download plugin archive: %w", err)
@@ -222,18 +227,22 @@ func (m *PluginManager) Install(ctx context.Context, name string, constraint *se
 	if err != nil {
 		return err
 	}
+	simhook.CrashPoint("install.after_download")
 
 	if err := archiver.NewTarGz().Unarchive(archiveFilePath, newPluginDir); err != nil {
 		return fmt.Errorf("couldn't unarchive plugin archive: %w", err)
 	}
+	simhook.CrashPoint("install.after_unarchive")
 
 	if err := os.Remove(archiveFilePath); err != nil {
 		return fmt.Errorf("couldn't remove plugin archive: %w", err)
 	}
+	simhook.CrashPoint("install.after_remove_archive")
 
 	if err := registerFileExtensions(plugin.Name, plugin.FileExtensions); err != nil {
 		return fmt.Errorf("couldn't register file extensions: %w", err)
 	}
+	simhook.CrashPoint("install.after_register_extensions")
 
 	return nil
 }
